@@ -199,11 +199,27 @@ def check(run, tier):
         est = [x for x in res["forall"] if x["function"] in vnames and any("+ 1 <= 0" in s and "ELEM" in s for s in x["facts"])]
         inv_bad = [c for c in res["inv"] if not c.get("ok") and c["root"] in (R1, R2) and "transition" in c["problem"]]
         inv_ok = [c for c in res["inv"] if c.get("ok") and c["root"] in (R1, R2)]
-        ok = bool(est) and not inv_bad and len(inv_ok) == len(roots)
+        # decisive: the invariant (which contains the for-all clause) is proven on the zones both constructors hand
+        # out; where the validation loop was recognised (`est`) is reported for diagnosis only
+        ok = not inv_bad and len(inv_ok) == len(roots)
         run.obligation(ok)
         run.sample({"rule": "FORALL-INDEX", "established in": est[:1], "constructors handing out zones with the invariant": [c["root"] for c in inv_ok]})
         if not ok:
             run.finding("FORALL-INDEX", "%s|forall-index" % cfg, "not proven: on the validator's Ok path every transition's local_time_type_index < len(local_time_types) (established: %s; INV failures: %s)" % (est[:1], inv_bad[:2]))
+        # ---- DESIGNATION (alphabet and length of every designation stored in a local time type handed out)
+        LT_TYPES = ("tz::timezone::TzAsciiStr", "tz::timezone::LocalTimeType")
+        des_bad = [c for c in res["inv"] if not c.get("ok") and c["type"] in LT_TYPES]
+        des_ok = [c for c in res["inv"] if c.get("ok") and any(t in c.get("types", {}) for t in LT_TYPES)]
+        run.obligation(not des_bad and len(des_ok) >= 3)
+        run.sample({"rule": "DESIGNATION", "values proven": sum(c["types"].get(t, 0) for c in des_ok for t in LT_TYPES), "roots": len({c["root"] for c in des_ok})})
+        seen_des = set()
+        for c in des_bad:
+            k = "%s|designation|%s|%s" % (cfg, c["root"], c["problem"].split(" ∈ ")[0][:40])
+            if k not in seen_des:
+                seen_des.add(k)
+                run.finding("DESIGNATION", k, "%s hands out a local time type whose designation/offset violates the documented domain: %s" % (c["root"], c["problem"]))
+        if not des_bad and len(des_ok) < 3:
+            run.finding("DESIGNATION", "%s|designation|floor" % cfg, "fewer than 3 roots hand out a checked LocalTimeType/TzAsciiStr (%d): the rule would pass vacuously" % len(des_ok))
         # ---- EQ-FIELDS
         if validators:
             V = list(validators.values())[0]
